@@ -2599,3 +2599,773 @@ Proof.
 Qed.
 
 End FixT.
+
+(* ================================================================== after /repo 5dfab15: quiescent cleanliness for all schedules *)
+
+(* ------------------------------------------------------------------ FIFO: a task is never delivered after the CANCEL of its own address *)
+Definition carries (c : addr) (m : msg) : Prop :=
+  match m with
+  | MSubmit t => t_addr t = c
+  | MBatch ts => exists t, In t ts /\ t_addr t = c
+  | _ => False
+  end.
+Definition notask (m : msg) : Prop := forall c, ~ carries c m.
+Definition fst3 (c : addr) : nat := fst (fst c).
+
+(* in queue q no message carrying address c comes after CANCEL(c) *)
+Fixpoint safe (c : addr) (q : list msg) : Prop :=
+  match q with
+  | [] => True
+  | m :: r => (m = MCancel c -> forall m', In m' r -> ~ carries c m') /\ safe c r
+  end.
+
+Lemma safe_app c q l : safe c q -> safe c l -> (In (MCancel c) q -> forall m, In m l -> ~ carries c m) -> safe c (q ++ l).
+Proof. induction q as [|m r IH]; simpl; intros S1 S2 H; auto. destruct S1 as [A B]. split.
+  - intros E m' IN. apply in_app_or in IN. destruct IN as [IN|IN]. apply A; auto. apply H; auto.
+  - apply IH; auto.
+Qed.
+Lemma safe_nocancel c l : ~ In (MCancel c) l -> safe c l.
+Proof. induction l as [|m r IH]; simpl; intros N; auto. split; [intros E; exfalso; apply N; auto|apply IH; intro X; apply N; auto]. Qed.
+Lemma safe_notasks c l : (forall m, In m l -> ~ carries c m) -> safe c l.
+Proof. induction l as [|m r IH]; simpl; intros N; auto. Qed.
+Lemma safe_tail c m r : safe c (m :: r) -> safe c r. Proof. simpl. tauto. Qed.
+Lemma safe_head c r : safe c (MCancel c :: r) -> forall m', In m' r -> ~ carries c m'. Proof. simpl. intros [A _]. auto. Qed.
+
+Lemma notask_cancel_msgs wid mb n : forall i m, In m (cancel_msgs wid mb i n) -> exists j, m = MCancel (wid, mb, j).
+Proof. induction n as [|n IH]; intros i m H; simpl in H. destruct H. destruct H as [<-|H]; eauto. Qed.
+
+(* messages a coroutine step emits: tasks with fresh mailbox ids, cancels for older ones, in this order *)
+Definition tasks_ge (wid lo : nat) (l : list msg) : Prop :=
+  forall m c, In m l -> carries c m -> exists mb i, c = (wid, mb, i) /\ lo <= mb.
+Definition cancels_lt (wid hi : nat) (l : list msg) : Prop :=
+  forall c, In (MCancel c) l -> exists mb i, c = (wid, mb, i) /\ mb < hi.
+
+Lemma carries_mk_batch wid mb cr comp c : forall ps i, (exists t, In t (mk_batch wid mb cr comp i ps) /\ t_addr t = c) -> exists j, c = (wid, mb, j).
+Proof. induction ps as [|p ps IH]; intros i (t & IN & E); simpl in IN. destruct IN. destruct IN as [<-|IN]. simpl in E. eauto. eapply IH; eauto. Qed.
+
+Lemma do_cancel_msgs wid mb s s1 : do_cancel wid mb s = Some s1 -> blt (c_boxes s) (c_counter s) ->
+  exists n, c_out s1 = c_out s ++ cancel_msgs wid mb 0 n /\ mb < c_counter s /\ c_counter s1 = c_counter s.
+Proof. unfold do_cancel. intros H B. destruct (lookup_b mb (c_boxes s)) eqn:L; [|discriminate].
+  destruct (mem_nat mb (rt_owned (c_rt s))); inv H. simpl. eexists. split; eauto. split; auto. apply B. congruence. Qed.
+
+Lemma out_nil wid lo hi : tasks_ge wid lo [] /\ cancels_lt wid hi [] /\ (forall c, safe c []).
+Proof. split; [|split]. intros m c []. intros c []. intros c; exact I. Qed.
+
+Lemma run_instrs_out wid is : forall s o s', run_instrs wid is s = (o, s') -> blt (c_boxes s) (c_counter s) ->
+  exists addo, c_out s' = c_out s ++ addo /\ tasks_ge wid (c_counter s) addo /\ cancels_lt wid (c_counter s') addo
+    /\ (forall c, safe c addo) /\ c_counter s <= c_counter s'.
+Proof.
+  induction is as [|i rest IH]; intros s o s' H B; simpl in H.
+  - inv H. exists []. rewrite app_nil_r. destruct (out_nil wid (c_counter s') (c_counter s')) as (A & B' & C). repeat split; auto.
+  - assert (NIL : forall s0 : cst, c_out s0 = c_out s -> c_counter s0 = c_counter s ->
+              exists addo, c_out s0 = c_out s ++ addo /\ tasks_ge wid (c_counter s) addo /\ cancels_lt wid (c_counter s0) addo
+                /\ (forall c, safe c addo) /\ c_counter s <= c_counter s0).
+    { intros s0 E1 E2. exists []. rewrite app_nil_r, E2. destruct (out_nil wid (c_counter s) (c_counter s)) as (A & B' & C). repeat split; auto. }
+    destruct i.
+    + pose proof (run_instrs_bext _ _ _ _ _ H) as RB.
+      apply IH in H; [|simpl; eapply bext_blt; [apply bext_new|auto]]. simpl in H.
+      destruct H as (addo & H1 & H2 & H3 & H4 & H5). eexists (_ :: addo). rewrite H1, <- app_assoc. simpl. split; eauto.
+      split; [|split; [|split]].
+      * intros m c [<-|IN] CR. simpl in CR. subst c. eauto. destruct (H2 _ _ IN CR) as (mb & j & E & L). exists mb, j. split; auto. lia.
+      * intros c [X|IN]. discriminate. apply H3; auto.
+      * intros c. simpl. split. discriminate. apply H4.
+      * lia.
+    + destruct ps as [|p ps]. inv H. apply NIL; auto.
+      apply IH in H; [|simpl; eapply bext_blt; [apply bext_new|auto]]. simpl in H.
+      destruct H as (addo & H1 & H2 & H3 & H4 & H5). eexists (_ :: addo). rewrite H1, <- app_assoc. simpl. split; eauto.
+      split; [|split; [|split]].
+      * intros m c [<-|IN] CR. apply (carries_mk_batch wid (c_counter s) _ _ c (p :: ps) 0) in CR. destruct CR as [j ->]. eauto.
+        destruct (H2 _ _ IN CR) as (mb & j & E & L). exists mb, j. split; auto. lia.
+      * intros c [X|IN]. discriminate. apply H3; auto.
+      * intros c. simpl. split. discriminate. apply H4.
+      * lia.
+    + repeat dmH H; inv H; apply NIL; auto.
+    + repeat dmH H; inv H; apply NIL; auto.
+    + destruct (nth_error (rt_futs (c_rt s)) f) eqn:E; [|inv H; apply NIL; auto].
+      match type of H with context[do_cancel ?a ?b ?c] => destruct (do_cancel a b c) as [sc|] eqn:D end; [|inv H; apply NIL; auto].
+      pose proof (do_cancel_bext _ _ _ _ D) as DB. simpl in DB.
+      apply do_cancel_msgs in D; [|simpl; auto]. simpl in D. destruct D as (n0 & D1 & D2 & D3).
+      apply IH in H; [|eapply bext_blt; eauto]. destruct H as (addo & H1 & H2 & H3 & H4 & H5). rewrite D3 in *.
+      exists (cancel_msgs wid n 0 n0 ++ addo). rewrite H1, D1, <- app_assoc. split; auto. split; [|split; [|split]]; auto.
+      * intros m c IN CR. apply in_app_or in IN. destruct IN as [IN|IN]. apply notask_cancel_msgs in IN. destruct IN as [j ->]. destruct CR.
+        eapply H2; eauto.
+      * intros c IN. apply in_app_or in IN. destruct IN as [IN|IN]. apply notask_cancel_msgs in IN. destruct IN as [j X]. inv X. exists n, j. split; auto. lia.
+        apply H3; auto.
+      * intros c. apply safe_app; auto. apply safe_notasks. intros m IN. apply notask_cancel_msgs in IN. destruct IN as [j ->]. auto.
+        intros IN m IM CR. apply notask_cancel_msgs in IN. destruct IN as [j X]. inv X.
+        destruct (H2 _ _ IM CR) as (mb & i & E2 & L). inv E2. lia.
+Qed.
+
+Definition only_cancels (l : list msg) : Prop := forall m, In m l -> exists c, m = MCancel c.
+
+Lemma do_cancel_only wid mb s s1 : do_cancel wid mb s = Some s1 -> exists addo, c_out s1 = c_out s ++ addo /\ only_cancels addo.
+Proof. unfold do_cancel. intros H. repeat dmH H; inv H. simpl. eexists. split; eauto. intros m' IN. apply notask_cancel_msgs in IN.
+  destruct IN as [j ->]. eauto. Qed.
+Lemma only_cancels_app a b : only_cancels a -> only_cancels b -> only_cancels (a ++ b).
+Proof. intros A B m IN. apply in_app_or in IN. destruct IN; auto. Qed.
+
+Lemma completion_loop_py_only fuel wid : forall i s s', completion_loop_py fuel wid i s = Some s' ->
+  exists addo, c_out s' = c_out s ++ addo /\ only_cancels addo.
+Proof. induction fuel as [|fuel IH]; intros i s s' H; simpl in H. inv H. exists []. rewrite app_nil_r. split; auto. intros m [].
+  destruct (nth_error (rt_owned (c_rt s)) i); [|inv H; exists []; rewrite app_nil_r; split; auto; intros m []].
+  destruct (lookup_b n (c_boxes s)); [|discriminate]. destruct (box_ready m).
+  apply IH in H. simpl in H. auto.
+  destruct (do_cancel wid n s) eqn:D; [|discriminate]. apply do_cancel_only in D. destruct D as (a1 & D1 & D2).
+  apply IH in H. destruct H as (a2 & H1 & H2). exists (a1 ++ a2). rewrite H1, D1, <- app_assoc. split; auto. apply only_cancels_app; auto. Qed.
+Lemma completion_loop_copy_only wid l : forall s s', completion_loop_copy wid l s = Some s' ->
+  exists addo, c_out s' = c_out s ++ addo /\ only_cancels addo.
+Proof. induction l as [|mb r IH]; intros s s' H; simpl in H. inv H. exists []. rewrite app_nil_r. split; auto. intros m [].
+  destruct (lookup_b mb (c_boxes s)); [|discriminate]. destruct (box_ready m).
+  apply IH in H. simpl in H. auto.
+  destruct (do_cancel wid mb s) eqn:D; [|discriminate]. apply do_cancel_only in D. destruct D as (a1 & D1 & D2).
+  apply IH in H. destruct H as (a2 & H1 & H2). exists (a1 ++ a2). rewrite H1, D1, <- app_assoc. split; auto. apply only_cancels_app; auto. Qed.
+Lemma completion_only fx wid s s' : completion fx wid s = Some s' -> exists addo, c_out s' = c_out s ++ addo /\ only_cancels addo.
+Proof. unfold completion. destruct fx. apply completion_loop_copy_only. apply completion_loop_py_only. Qed.
+
+Lemma safe_app_notask c q l : safe c q -> (forall m, In m l -> notask m) -> safe c (q ++ l).
+Proof. intros S N. apply safe_app; auto. apply safe_notasks. intros m IN. apply N; auto. intros _ m IN. apply N; auto. Qed.
+Lemma tasks_ge_app_notask wid lo q l : tasks_ge wid lo q -> (forall m, In m l -> notask m) -> tasks_ge wid lo (q ++ l).
+Proof. intros T N m c IN CR. apply in_app_or in IN. destruct IN as [IN|IN]. eauto. exfalso. eapply N; eauto. Qed.
+Lemma only_cancels_notask l : only_cancels l -> forall m, In m l -> notask m.
+Proof. intros O m IN c CR. destruct (O _ IN) as [c' ->]. destruct CR. Qed.
+
+Section Ord.
+Variable fx : bool.
+Variable f8 : bool.
+
+Lemma select_out w o w1 out lab : select f8 w = (o, w1, out, lab) -> forall m, In m out -> notask m /\ forall c, m <> MCancel c.
+Proof. unfold select. intros H m IN.
+  destruct (sel_ready f8 w (w_ready w) []) as [[[o1 w'] r] lab1]. destruct o1. inv H. destruct IN.
+  destruct (sel_delayed f8 (set_ready [] w') (rev (w_delayed w')) lab1) as [[o2 w2] lab2].
+  destruct o2; inv H. destruct IN. destruct IN as [<-|[]]. split. intros c []. intros c; discriminate. Qed.
+
+Lemma raise_path_out2 w rt k out lab w' out' lab' : raise_path w rt k out lab = (w', out', lab') ->
+  exists addo, out' = out ++ addo /\ forall m, In m addo -> notask m.
+Proof. unfold raise_path. intros H. dmH H; inv H. exists []. rewrite app_nil_r. split; auto. intros m [].
+  eexists [_]. split; eauto. intros m [<-|[]] c []. Qed.
+
+Lemma wstep_out P w0 w' out lab : wstep fx f8 P w0 = Some (w', out, lab) -> blt (w_boxes w0) (w_counter w0) ->
+  tasks_ge (w_id w0) (w_counter w0) out /\ (forall c, safe c out).
+Proof.
+  unfold wstep. intros H B. dmH H; [discriminate|].
+  destruct (select f8 w0) as [[[o w] out0] lab0] eqn:S.
+  pose proof (select_env _ _ _ _ _ _ S) as (S1 & S2 & S3 & S4). pose proof (select_out _ _ _ _ _ S) as SO.
+  assert (T0 : tasks_ge (w_id w0) (w_counter w0) out0) by (intros m c IN CR; exfalso; destruct (SO _ IN) as [X _]; eapply X; eauto).
+  assert (F0 : forall c, safe c out0) by (intros c; apply safe_notasks; intros m IN; apply SO; auto).
+  destruct o as [rt0|]; [|inv H; auto].
+  assert (EXT : forall q addo, tasks_ge (w_id w0) (w_counter w0) q -> (forall c, safe c q) -> (forall m, In m addo -> notask m) ->
+            tasks_ge (w_id w0) (w_counter w0) (q ++ addo) /\ (forall c, safe c (q ++ addo))).
+  { intros q addo T F N. split. apply tasks_ge_app_notask; auto. intros c. apply safe_app_notask; auto. }
+  assert (RP : forall wx rtx kx q labx w1 o1 lb1, raise_path wx rtx kx q labx = (w1, o1, lb1) ->
+            tasks_ge (w_id w0) (w_counter w0) q -> (forall c, safe c q) ->
+            tasks_ge (w_id w0) (w_counter w0) o1 /\ (forall c, safe c o1)).
+  { intros wx rtx kx q labx w1 o1 lb1 R T F. apply raise_path_out2 in R. destruct R as (addo & -> & N). apply EXT; auto. }
+  destruct (desired_result (w_id w) rt0 (w_boxes w)) as [[[boxes1 rt1] l1]|] eqn:DR.
+  2:{ match type of H with context[raise_path ?a ?b ?c ?d ?e] => destruct (raise_path a b c d e) as [[w1 o1] lb1] eqn:R end.
+      inv H. eapply RP; eauto. }
+  pose proof (desired_result_bext _ _ _ _ _ _ (w_counter w) DR) as DB.
+  destruct (nth_error P (t_prog (rt_task (reset_await rt1)))) as [prog|] eqn:NP.
+  2:{ match type of H with context[raise_path ?a ?b ?c ?d ?e] => destruct (raise_path a b c d e) as [[w1 o1] lb1] eqn:R end.
+      inv H. eapply RP; eauto. }
+  match type of H with context[run_instrs ?a ?b ?c] => destruct (run_instrs a b c) as [oc s] eqn:RI end.
+  assert (B1 : blt boxes1 (w_counter w)). { eapply bext_blt; eauto. rewrite S3, S4; auto. }
+  apply run_instrs_out in RI; [|simpl; auto]. simpl in RI. destruct RI as (addo & R1 & R2 & R3 & R4 & R5).
+  rewrite S1, S4 in R2.
+  assert (T1 : tasks_ge (w_id w0) (w_counter w0) (c_out s)).
+  { rewrite R1. intros m c IN CR. apply in_app_or in IN. destruct IN as [IN|IN]. exfalso; destruct (SO _ IN) as [X _]; eapply X; eauto. eauto. }
+  assert (F1 : forall c, safe c (c_out s)).
+  { intros c. rewrite R1. apply safe_app; auto. intros IN. exfalso. destruct (SO _ IN) as [_ X]. eapply X; eauto. }
+  destruct oc as [mb nx| |k].
+  - destruct (lookup_b mb (c_boxes s)) eqn:L.
+    + inv H. auto.
+    + match type of H with context[raise_path ?a ?b ?c ?d ?e] => destruct (raise_path a b c d e) as [[w1 o1] lb1] eqn:R end.
+      inv H. eapply RP; eauto.
+  - match type of H with context[match ?x with Some _ => _ | None => None end] => destruct x as [[[w2 out2] lab2]|] eqn:SH end; [|discriminate].
+    match type of H with context[completion ?a ?b ?c] => destruct (completion a b c) as [s2|] eqn:CL end; [|discriminate].
+    inv H. apply completion_only in CL. simpl in CL. destruct CL as (addo2 & -> & OC).
+    assert (W2 : exists x, out2 = c_out s ++ [x] /\ notask x).
+    { destruct (t_addr (rt_task rt0)) as [[dst x1] x2]. destruct (dst =? w_id w).
+      - match type of SH with context[handle_result ?a ?b ?c] => destruct (handle_result a b c) as [[w2' l2]|] eqn:HR end; [|discriminate].
+        inv SH. eexists; split; eauto. intros c [].
+      - inv SH. eexists; split; eauto. intros c []. }
+    destruct W2 as (x & -> & NX).
+    destruct (EXT (c_out s) [x] T1 F1) as [T2 F2]. intros m [<-|[]]; auto.
+    apply EXT; auto. apply only_cancels_notask; auto.
+  - match type of H with context[raise_path ?a ?b ?c ?d ?e] => destruct (raise_path a b c d e) as [[w1 o1] lb1] eqn:R end.
+    inv H. eapply RP; eauto.
+Qed.
+
+Record ord (s : sys) : Prop := {
+  od_u0 : forall c j q m, nth_error (sy_up s) j = Some q -> In m q -> (carries c m \/ m = MCancel c) -> fst3 c = S j;
+  od_o1 : forall c j q m, nth_error (sy_up s) j = Some q -> In m q -> carries c m ->
+            (forall w ws, nth_error (sy_workers s) w = Some ws -> ~ In c (w_cancelled ws))
+            /\ (forall k q', nth_error (sy_down s) k = Some q' -> ~ In (MCancel c) q');
+  od_su : forall c j q, nth_error (sy_up s) j = Some q -> safe c q;
+  od_o2 : forall c k q ws, nth_error (sy_down s) k = Some q -> nth_error (sy_workers s) k = Some ws ->
+            safe c q /\ (In c (w_cancelled ws) -> forall m, In m q -> ~ carries c m);
+  od_roots : forall mb i, In (0, mb, i) (sy_issued s) -> mb < s_counter (sy_server s)
+}.
+
+Lemma ord_init nw : ord (init_sys nw).
+Proof. constructor; simpl.
+  - intros c j q m H IN. apply nth_error_In in H. apply repeat_spec in H. subst. destruct IN.
+  - intros c j q m H IN. apply nth_error_In in H. apply repeat_spec in H. subst. destruct IN.
+  - intros c j q H. apply nth_error_In in H. apply repeat_spec in H. subst. exact I.
+  - intros c k q ws H W. apply nth_error_In in H. apply repeat_spec in H. subst. split. exact I. intros _ m [].
+  - intros mb i [].
+Qed.
+
+Lemma In_pick {A} (l : list A) idx x : In x (pick l idx) -> In x l.
+Proof. induction idx as [|i r IH]; simpl; intros H. destruct H. destruct (nth_error l i) eqn:E; auto. destruct H as [<-|H]; auto.
+  eapply nth_error_In; eauto. Qed.
+
+Definition lk (k : nat) (d : list (nat * msg)) : list msg := map snd (filter (fun p => fst p =? k) d).
+Lemma In_lk k d m : In m (lk k d) <-> In (k, m) d.
+Proof. unfold lk. rewrite in_map_iff. split. intros ([k' m'] & E & IN). simpl in E. subst. apply filter_In in IN. destruct IN as [IN E].
+  simpl in E. apply Nat.eqb_eq in E. subst; auto.
+  intros IN. exists (k, m). split; auto. apply filter_In. split; auto. simpl. apply Nat.eqb_refl. Qed.
+Lemma push_down_lk d ch k q' : nth_error (push_down d ch) k = Some q' -> exists q, nth_error ch k = Some q /\ q' = q ++ lk k d.
+Proof. intros H. destruct (nth_error ch k) as [q|] eqn:E.
+  erewrite push_down_nth in H; eauto. inv H. eauto.
+  exfalso. apply nth_error_None in E. rewrite <- (length_push_down d) in E. apply nth_error_None in E. congruence. Qed.
+
+(* what the server forwards downwards only re-packages what it received *)
+Lemma sup_kinds nw m asg srv srv' o lab : sup nw m asg srv = Some (srv', o, lab) ->
+  forall k m', In (k, m') (o_down o) -> (forall c, carries c m' -> carries c m) /\ (forall c, m' = MCancel c -> m = MCancel c).
+Proof.
+  intros H k m' IN. destruct m; unfold sup in H; cbv beta iota in H.
+  - destruct (schedule nw [t] asg) eqn:SC; inv H. simpl in IN. unfold schedule in SC. destruct (valid_assign nw (length [t]) asg); inv SC.
+    apply in_map_iff in IN. destruct IN as (p & E & _). inv E. split. intros c (x & X1 & X2). apply In_pick in X1. destruct X1 as [<-|[]]. exact X2.
+    intros c E; discriminate.
+  - destruct (schedule nw ts asg) eqn:SC; inv H. simpl in IN. unfold schedule in SC. destruct ts as [|t0 ts0]. inv SC. destruct IN.
+    destruct (valid_assign nw (length (t0 :: ts0)) asg); inv SC.
+    apply in_map_iff in IN. destruct IN as (p & E & _). inv E. split. intros c (x & X1 & X2). apply In_pick in X1. exists x; auto.
+    intros c E; discriminate.
+  - repeat dmH H; inv H; simpl in IN; try contradiction; destruct IN as [IN|[]]; inv IN; split; auto.
+  - inv H. simpl in IN. apply broadcast_In in IN. destruct IN as [-> _]. split; auto.
+  - inv H. destruct IN.
+  - inv H. destruct IN.
+  - repeat dmH H; inv H; destruct IN.
+Qed.
+
+Lemma cancel_comp_lt nw conn id s s' o iss : cancel_comp nw conn id s = Some (s', o, iss) -> srv_inv s ->
+  (forall a, In a iss -> exists mb, a = (0, mb, 0) /\ mb < s_counter s) /\ (forall k m, In (k, m) (o_down o) -> exists a, m = MCancel a)
+  /\ s_counter s' = s_counter s.
+Proof. intros H I. pose proof (cancel_comp_spec _ _ _ _ _ _ _ H I) as (_ & SH & _ & _ & [(ids & mb & A1 & A2 & A3 & _ & _ & _ & -> & OD)|(-> & -> & OD & _)]).
+  - split. intros a [<-|[]]. exists mb. split; auto. eapply sv_task; eauto. split. intros k m IN. rewrite OD in IN. apply broadcast_In in IN. destruct IN as [-> _]. eauto.
+    apply (sh_counter _ _ SH).
+  - split. intros a []. split; auto. rewrite OD. intros k m []. Qed.
+
+Lemma cancel_all_lt nw conn : forall ids s s' o iss, cancel_all nw conn ids s = Some (s', o, iss) -> srv_inv s ->
+  (forall a, In a iss -> exists mb, a = (0, mb, 0) /\ mb < s_counter s) /\ (forall k m, In (k, m) (o_down o) -> exists a, m = MCancel a)
+  /\ s_counter s' = s_counter s.
+Proof. induction ids as [|id rr IH]; intros s s' o iss H I; simpl in H. inv H. split. intros a []. split; auto. intros k m [].
+  destruct (cancel_comp nw conn id s) as [[[s1 o1] i1]|] eqn:C1; [|discriminate].
+  destruct (cancel_all nw conn rr s1) as [[[s2 o2] i2]|] eqn:C2; [|discriminate]. inv H.
+  destruct (cancel_comp_lt _ _ _ _ _ _ _ C1 I) as (A1 & A2 & A3).
+  destruct (cancel_comp_spec _ _ _ _ _ _ _ C1 I) as (I1 & _).
+  destruct (IH _ _ _ _ C2 I1) as (B1 & B2 & B3). rewrite A3 in *. split; [|split; [|auto]].
+  intros a IN. apply in_app_or in IN. destruct IN; auto. intros k m IN. simpl in IN. apply in_app_or in IN. destruct IN; eauto. Qed.
+
+Lemma sreq_kinds nw c r asg srv srv' o iss : sreq nw c r asg srv = Some (srv', o, iss) -> srv_inv srv ->
+  (forall a, In a iss -> exists mb, a = (0, mb, 0) /\ mb < s_counter srv)
+  /\ ((forall k m', In (k, m') (o_down o) -> exists a, m' = MCancel a)
+      \/ (forall k m', In (k, m') (o_down o) -> (forall x, carries x m' -> x = (0, s_counter srv, 0)) /\ (forall a, m' <> MCancel a))).
+Proof.
+  intros H I. destruct r; unfold sreq in H; cbv beta iota in H.
+  - repeat dmH H; inv H. split. intros a []. left. intros k m [].
+  - destruct (lookup_n c (s_clients srv)); [|discriminate]. destruct (lookup_n id (s_tasks srv)); [discriminate|].
+    match type of H with context[schedule ?a ?b ?c] => destruct (schedule a b c) eqn:SC end; inv H.
+    split. intros a []. right. intros k m' IN. simpl in IN. unfold schedule in SC. dmH SC; inv SC.
+    apply in_map_iff in IN. destruct IN as (p & E & _). inv E. split. intros x (t & X1 & X2). apply In_pick in X1. destruct X1 as [<-|[]]. auto.
+    intros a E; discriminate.
+  - destruct (lookup_n c (s_clients srv)) as [ids|] eqn:C; [|discriminate].
+    destruct (if mem_nat id ids then lookup_n id (s_tasks srv) else None) as [[mb c']|].
+    + repeat dmH H; inv H; (split; [intros a []|left; intros k m []]).
+    + unfold disconnect in H. rewrite C in H. dmH H; [|discriminate].
+      match type of H with context[cancel_all nw c order ?x] => destruct (cancel_all nw c order x) as [[[s2 o2] i2]|] eqn:CA end; [|discriminate].
+      inv H. apply cancel_all_lt in CA. simpl in CA. destruct CA as (A1 & A2 & _). split; auto.
+      destruct I. constructor; simpl; auto.
+  - destruct (cancel_comp_lt _ _ _ _ _ _ _ H I) as (A1 & A2 & _). split; auto.
+  - unfold disconnect in H. destruct (lookup_n c (s_clients srv)); [|discriminate]. dmH H; [|discriminate].
+    match type of H with context[cancel_all nw c order ?x] => destruct (cancel_all nw c order x) as [[[s2 o2] i2]|] eqn:CA end; [|discriminate].
+    inv H. apply cancel_all_lt in CA. simpl in CA. destruct CA as (A1 & A2 & _). split; auto.
+    destruct I. constructor; simpl; auto.
+Qed.
+
+Lemma safe_snoc_notask c q m : safe c q -> notask m -> safe c (q ++ [m]).
+Proof. intros. apply safe_app_notask; auto. intros x [<-|[]]; auto. Qed.
+Lemma safe_snoc_cancel c q a : safe c q -> safe c (q ++ [MCancel a]).
+Proof. intros. apply safe_snoc_notask; auto. intros x []. Qed.
+
+Lemma ord_step P s e s' l : step fx f8 P s e = Some (s', l) -> sinv s -> csound s -> srv_inv (sy_server s) -> ord s -> ord s'.
+Proof.
+  intros H SI CS SV [U0 O1 SU O2 RT]. pose proof SI as [[LU LD WK] BL DR]. destruct e as [cl r asg|w asg|w|w].
+  - (* client request *)
+    pose proof (step_server _ _ _ _ _ _ _ H SV) as [_ [CNT _]].
+    apply step_client in H. destruct H as (srv & o & iss & H1 & -> & _). simpl in CNT.
+    destruct (sreq_kinds _ _ _ _ _ _ _ _ H1 SV) as [ISS KD]. pose proof (sreq_down _ _ _ _ _ _ _ _ H1) as DC.
+    assert (FRESH : ~ In (0, s_counter (sy_server s), 0) (sy_issued s)).
+    { intros IN. apply RT in IN. lia. }
+    assert (LKS : forall c k, safe c (lk k (o_down o))).
+    { intros c k. destruct KD as [KD|KD]. apply safe_notasks. intros m IN CR. apply In_lk in IN. destruct (KD _ _ IN) as [a ->]. destruct CR.
+      apply safe_nocancel. intro IN. apply In_lk in IN. destruct (KD _ _ IN) as [_ X]. eapply X; eauto. }
+    assert (LKC : forall c k m, In m (lk k (o_down o)) -> carries c m -> c = (0, s_counter (sy_server s), 0)).
+    { intros c k m IN CR. apply In_lk in IN. destruct KD as [KD|KD]. destruct (KD _ _ IN) as [a ->]. destruct CR. destruct (KD _ _ IN) as [X _]. auto. }
+    constructor; simpl.
+    + eauto.
+    + intros c j q m Q IN CR. destruct (O1 _ _ _ _ Q IN CR) as [A B]. split; auto.
+      intros k q' Q'. apply push_down_lk in Q'. destruct Q' as (q0 & Q0 & ->). intro X. apply in_app_or in X. destruct X as [X|X]. eapply B; eauto.
+      apply In_lk in X. apply DC in X. destruct (ISS _ X) as (mb & E & _). subst c.
+      pose proof (U0 _ _ _ _ Q IN (or_introl CR)) as F. discriminate.
+    + eauto.
+    + intros c k q' ws Q' W. apply push_down_lk in Q'. destruct Q' as (q0 & Q0 & ->). destruct (O2 c _ _ _ Q0 W) as [A B]. split.
+      * apply safe_app; auto. intros IN m IM CR. apply (LKC c k m IM) in CR. subst c. apply FRESH. eapply (cs_down _ CS); eauto.
+      * intros IC m IM CR. apply in_app_or in IM. destruct IM as [IM|IM]. eapply B; eauto.
+        apply (LKC c k m IM) in CR. subst c. apply FRESH. eapply (cs_w _ CS); eauto.
+    + intros mb i IN. apply in_app_or in IN. destruct IN as [IN|IN]. apply RT in IN. lia.
+      destruct (ISS _ IN) as (mb' & E & L). inv E. lia.
+  - (* server handles a message from worker w *)
+    pose proof (step_server _ _ _ _ _ _ _ H SV) as [_ [CNT _]].
+    apply step_up in H. destruct H as (m & q & srv & o & lab & H1 & H2 & -> & _). simpl in CNT.
+    pose proof (sup_kinds _ _ _ _ _ _ _ H2) as KD.
+    assert (UPIN : forall j q0 x, nth_error (set_nth w q (sy_up s)) j = Some q0 -> In x q0 -> exists q1, nth_error (sy_up s) j = Some q1 /\ In x q1).
+    { intros j q0 x Q IN. apply nth_error_set_nth_inv in Q. destruct Q as [[-> ->]|[N Q]]. exists (m :: q). split; auto. right; auto. eauto. }
+    constructor; simpl.
+    + intros c j q0 x Q IN X. destruct (UPIN _ _ _ Q IN) as (q1 & Q1 & I1). eauto.
+    + intros c j q0 x Q IN CR. destruct (UPIN _ _ _ Q IN) as (q1 & Q1 & I1). destruct (O1 _ _ _ _ Q1 I1 CR) as [A B]. split; auto.
+      intros k q' Q'. apply push_down_lk in Q'. destruct Q' as (q2 & Q2 & ->). intro X. apply in_app_or in X. destruct X as [X|X]. eapply B; eauto.
+      apply In_lk in X. destruct (KD _ _ X) as [_ K2]. pose proof (K2 _ eq_refl) as E. subst m.
+      (* the head of up[w] is CANCEL(c) while x in some up queue carries c *)
+      apply nth_error_set_nth_inv in Q. destruct Q as [[-> ->]|[N Q]].
+      * pose proof (SU c _ _ H1) as S0. eapply (safe_head _ _ S0); eauto.
+      * pose proof (U0 c _ _ _ Q IN (or_introl CR)) as F1. pose proof (U0 c _ _ _ H1 (or_introl eq_refl) (or_intror eq_refl)) as F2. congruence.
+    + intros c j q0 Q. apply nth_error_set_nth_inv in Q. destruct Q as [[-> ->]|[N Q]]. eapply safe_tail. eapply SU; eauto. eauto.
+    + intros c k q' ws Q' W. apply push_down_lk in Q'. destruct Q' as (q2 & Q2 & ->). destruct (O2 c _ _ _ Q2 W) as [A B].
+      assert (HD : forall x, In x (lk k (o_down o)) -> carries c x -> carries c m) by (intros x IN CR; apply In_lk in IN; destruct (KD _ _ IN) as [K1 _]; auto).
+      split.
+      * apply safe_app; auto.
+        -- destruct m; try (apply safe_notasks; intros x IN CR; apply HD in CR; auto; destruct CR; fail).
+           ++ apply safe_nocancel. intro IN. apply In_lk in IN. destruct (KD _ _ IN) as [_ K2]. discriminate (K2 _ eq_refl).
+           ++ apply safe_nocancel. intro IN. apply In_lk in IN. destruct (KD _ _ IN) as [_ K2]. discriminate (K2 _ eq_refl).
+        -- intros IN x IX CR. apply HD in CR; auto. destruct (O1 _ _ _ _ H1 (or_introl eq_refl) CR) as [_ B1]. eapply B1; eauto.
+      * intros IC x IX CR. apply in_app_or in IX. destruct IX as [IX|IX]. eapply B; eauto.
+        apply HD in CR; auto. destruct (O1 _ _ _ _ H1 (or_introl eq_refl) CR) as [A1 _]. eapply A1; eauto.
+    + intros mb i IN. rewrite app_nil_r in IN. apply RT in IN. lia.
+  - (* worker w receives *)
+    apply step_down in H. destruct H as (m & q & ws0 & ws1 & H1 & H2 & H3 & ->).
+    destruct (WK _ _ H2) as [K1 K2]. pose proof (wrecv_fields _ _ _ _ H3 K1) as (_ & _ & _ & F4 & F5).
+    assert (CANC : forall c, In c (w_cancelled ws1) -> In c (w_cancelled ws0) \/ m = MCancel c).
+    { intros c IN. destruct m; simpl in H3; try discriminate.
+      - inv H3. auto.
+      - unfold recv_batch in H3. destruct (rev ts); [discriminate|]. inv H3. auto.
+      - pose proof (handle_result_fields _ _ _ _ _ H3) as (_ & _ & C & _). rewrite C in IN. auto.
+      - pose proof (handle_cancel_fields _ _ _ _ H3) as (_ & _ & C & _). apply C in IN. destruct IN as [->|IN]; auto. }
+    constructor; simpl.
+    + eauto.
+    + intros c j q0 x Q IN CR. destruct (O1 _ _ _ _ Q IN CR) as [A B]. split.
+      * intros k ws W. apply nth_error_set_nth_inv in W. destruct W as [[-> ->]|[N W]]; [|eauto].
+        intro X. apply CANC in X. destruct X as [X|X]. eapply A; eauto. subst m. eapply B; eauto. left; auto.
+      * intros k q' Q'. apply nth_error_set_nth_inv in Q'. destruct Q' as [[-> ->]|[N Q']]; [|eauto]. intro X. eapply B; eauto. right; auto.
+    + eauto.
+    + intros c k q' ws Q' W. apply nth_error_set_nth_inv in Q'. apply nth_error_set_nth_inv in W.
+      destruct Q' as [[-> ->]|[N Q']]; destruct W as [[E ->]|[N' W]]; try congruence.
+      * destruct (O2 c _ _ _ H1 H2) as [A B]. split. eapply safe_tail; eauto.
+        intros IC x IX CR. apply CANC in IC. destruct IC as [IC|IC]. eapply B; eauto. right; auto. subst m. eapply (safe_head _ _ A); eauto.
+      * eauto.
+    + auto.
+  - (* main thread of worker w *)
+    apply step_step in H. destruct H as (ws0 & q & ws1 & out & H1 & H2 & H3 & ->).
+    destruct (WK _ _ H1) as [K1 K2].
+    pose proof (wstep_fields _ _ _ _ _ _ _ H3) as (_ & _ & FC).
+    pose proof (wstep_cancels _ _ _ _ _ _ _ H3 (BL _ _ H1)) as (OD & _ & _).
+    pose proof (wstep_out _ _ _ _ _ H3 (BL _ _ H1)) as (TG & SF). rewrite K2 in *.
+    (* addresses carried by the new messages are fresh: never issued *)
+    assert (FR : forall x c, In x out -> carries c x -> ~ In c (sy_issued s)).
+    { intros x c IN CR X. destruct (TG _ _ IN CR) as (mb & i & -> & L). destruct (DR _ _ _ _ X H1) as [_ Y]. lia. }
+    assert (CW : forall k ws, nth_error (set_nth w ws1 (sy_workers s)) k = Some ws -> exists ws', nth_error (sy_workers s) k = Some ws' /\ w_cancelled ws = w_cancelled ws').
+    { intros k ws W. apply nth_error_set_nth_inv in W. destruct W as [[-> ->]|[N W]]; eauto. }
+    constructor; simpl.
+    + intros c j q0 x Q IN X. apply nth_error_set_nth_inv in Q. destruct Q as [[-> ->]|[N Q]]; [|eauto].
+      apply in_app_or in IN. destruct IN as [IN|IN]. eauto.
+      destruct X as [X|X]. destruct (TG _ _ IN X) as (mb & i & -> & _). auto.
+      subst x. apply In_cancels_of in IN. destruct (OD _ IN) as (mb & i & -> & _). auto.
+    + intros c j q0 x Q IN CR. apply nth_error_set_nth_inv in Q.
+      assert (OLD : forall q1, nth_error (sy_up s) j = Some q1 -> In x q1 ->
+                (forall k ws, nth_error (set_nth w ws1 (sy_workers s)) k = Some ws -> ~ In c (w_cancelled ws)) /\
+                (forall k q', nth_error (sy_down s) k = Some q' -> ~ In (MCancel c) q')).
+      { intros q1 Q1 I1. destruct (O1 _ _ _ _ Q1 I1 CR) as [A B]. split; auto. intros k ws W. destruct (CW _ _ W) as (ws' & W' & ->). eauto. }
+      destruct Q as [[-> ->]|[N Q]]; [|eauto]. apply in_app_or in IN. destruct IN as [IN|IN]. eauto.
+      pose proof (FR _ _ IN CR) as NI. split.
+      * intros k ws W X. destruct (CW _ _ W) as (ws' & W' & E). rewrite E in X. apply NI. eapply (cs_w _ CS); eauto.
+      * intros k q' Q' X. apply NI. eapply (cs_down _ CS); eauto.
+    + intros c j q0 Q. apply nth_error_set_nth_inv in Q. destruct Q as [[-> ->]|[N Q]]; [|eauto].
+      apply safe_app; auto. eapply SU; eauto. intros IN x IX CR. eapply FR; eauto. eapply (cs_up _ CS); eauto.
+    + intros c k q' ws Q' W. destruct (CW _ _ W) as (ws' & W' & ->). eauto.
+    + intros mb i IN. apply in_app_or in IN. destruct IN as [IN|IN]. eapply RT; eauto. destruct (OD _ IN) as (mb' & i' & E & _). discriminate.
+Qed.
+End Ord.
+
+
+Section Full.
+Variable fx : bool.
+
+(* ------------------------------------------------------------------ C12_quiescent_clean (code since /repo 5dfab15, f8 = true) *)
+Definition tkeys (w : wstate) : Prop := NoDup (map fst (w_tasks w)).
+Definition texact (w : wstate) : Prop := forall t, In t (tasks_of w) -> ~ In (t_addr t) (w_cancelled w).
+Definition rdead (w : wstate) (ready : list addr) : Prop :=
+  forall a rt, In (a, rt) (w_tasks w) -> dead_on w (rt_task rt) = true -> In a ready.
+Definition wgood (w : wstate) : Prop := tkeys w /\ texact w /\ rdead w (w_ready w).
+
+Lemma NoDup_keys_put_t k v l : NoDup (map fst l) -> NoDup (map fst (put_t k v l)).
+Proof. induction l as [|[k' v'] l IH]; simpl; intros N. repeat constructor; auto.
+  inv N. destruct (addr_eqb k k') eqn:E; simpl.
+  - apply addr_eqb_eq in E. subst. constructor; auto.
+  - constructor; auto. intro X. apply H1. apply in_map_iff in X. destruct X as ([k2 v2] & E2 & IN). simpl in E2. subst.
+    apply (In_put_inv addr_eqb) in IN. destruct IN as [IN|IN]. inv IN. rewrite addr_eqb_refl in E. discriminate.
+    apply in_map_iff. exists (k', v2). auto.
+Qed.
+Lemma NoDup_keys_remove_t k l : NoDup (map fst l) -> NoDup (map fst (remove_t k l)).
+Proof. induction l as [|[k' v'] l IH]; simpl; intros N; auto. inv N. destruct (addr_eqb k k'); auto. simpl. constructor; auto.
+  intro X. apply H1. apply in_map_iff in X. destruct X as ([k2 v2] & E2 & IN). simpl in E2. subst.
+  apply (In_remove addr_eqb addr_eqb_eq) in IN. apply in_map_iff. exists (k', v2). tauto. Qed.
+Lemma lt_unique k v l : NoDup (map fst l) -> In (k, v) l -> lookup_t k l = Some v.
+Proof. induction l as [|[k' v'] l IH]; simpl; intros N H. destruct H. inv N.
+  destruct H as [H|H]. inv H. rewrite addr_eqb_refl; auto.
+  destruct (addr_eqb k k') eqn:E. apply addr_eqb_eq in E. subst. exfalso. apply H2. apply in_map_iff. exists (k', v); auto.
+  auto. Qed.
+
+Lemma dead_on_cases w t : dead_on w t = true -> In (t_addr t) (w_cancelled w) \/ existsb (fun b => mem_addr b (w_cancelled w)) (t_crumbs t) = true.
+Proof. intros H. apply dead_on_iff in H. destruct H as (c & C1 & C2). unfold desc in C2. apply orb_true_iff in C2. destruct C2 as [C2|C2].
+  apply addr_eqb_eq in C2. subst. auto. right. apply existsb_exists. exists c. split. apply mem_addr_In; auto. apply mem_addr_In; auto. Qed.
+
+(* an entry that the worker knows to be dead, with its own address not cancelled, is forgotten when popped *)
+Lemma forget_dead w a rt : lookup_t a (w_tasks w) = Some rt -> t_addr (rt_task rt) = a -> ~ In a (w_cancelled w) ->
+  dead_on w (rt_task rt) = true -> w_tasks (forget true w a) = remove_t a (w_tasks w).
+Proof. intros L K N D. unfold forget, crumb_dead. rewrite L.
+  destruct (mem_addr a (w_cancelled w)) eqn:M. apply mem_addr_In in M. contradiction.
+  apply dead_on_cases in D. destruct D as [D|D]. rewrite K in D. contradiction. rewrite D. simpl. auto. Qed.
+
+Lemma texact_sub w w' : w_cancelled w' = w_cancelled w -> (forall t, In t (tasks_of w') -> In t (tasks_of w)) -> texact w -> texact w'.
+Proof. intros C S T t IN. rewrite C. apply T. auto. Qed.
+
+Lemma tasks_of_remove w a t : In t (tasks_of (set_tasks (remove_t a (w_tasks w)) w)) -> In t (tasks_of w).
+Proof. unfold tasks_of. simpl. intros H. apply in_app_or in H. apply in_or_app. destruct H as [H|H]; auto. left.
+  apply in_map_iff in H. destruct H as ([k v] & E & IN). apply (In_remove addr_eqb addr_eqb_eq) in IN. apply in_map_iff. exists (k, v). tauto. Qed.
+
+Lemma sel_ready_good : forall ready w lab o w1 r lab1, sel_ready true w ready lab = (o, w1, r, lab1) ->
+  keys_ok w -> tkeys w -> texact w -> rdead w ready ->
+  tkeys w1 /\ texact w1 /\ rdead w1 r /\ keys_ok w1.
+Proof.
+  induction ready as [|a rd IH]; intros w lab o w1 r lab1 H KO TK TE RD; simpl in H.
+  - inv H. auto.
+  - destruct (runnable w a) eqn:R.
+    + inv H. split; auto. split; auto. split; auto. intros a' rt' IN D. destruct (RD _ _ IN D) as [<-|X]; auto. exfalso.
+      apply runnable_some in R. destruct R as [R1 R2]. apply lt_unique in IN; auto. rewrite R1 in IN. inv IN.
+      rewrite R2 in D. discriminate. apply KO. apply lt_In; auto.
+    + assert (RD' : rdead (forget true w a) rd).
+      { intros a' rt' IN D. pose proof (forget_In true _ _ _ IN) as IN0.
+        rewrite (dead_on_env w (forget true w a)) in D by apply forget_cancelled.
+        destruct (RD _ _ IN0 D) as [<-|X]; auto. exfalso.
+        pose proof (lt_unique _ _ _ TK IN0) as L. pose proof (KO _ _ IN0) as K.
+        assert (N : ~ In a (w_cancelled w)). { intro X. eapply TE; [|rewrite K; exact X]. apply In_tasks_of. left; eauto. }
+        rewrite (forget_dead w a rt') in IN; auto. apply (In_remove addr_eqb addr_eqb_eq) in IN. tauto. }
+      eapply IH in H; eauto.
+      * apply keys_ok_forget; auto.
+      * unfold tkeys, forget. destruct (true && crumb_dead w a); simpl; auto. apply NoDup_keys_remove_t; auto.
+      * eapply texact_sub; [apply forget_cancelled| |exact TE]. intros t IN. unfold forget in IN.
+        destruct (true && crumb_dead w a); auto. eapply tasks_of_remove; eauto.
+Qed.
+
+Definition nodeadw (w : wstate) : Prop := forall a rt, In (a, rt) (w_tasks w) -> dead_on w (rt_task rt) = false.
+
+Lemma sel_delayed_good : forall rdel w lab o w1 lab1, sel_delayed true w rdel lab = (o, w1, lab1) ->
+  keys_ok w -> tkeys w -> nodeadw w -> (forall t, In t rdel -> ~ In (t_addr t) (w_cancelled w)) ->
+  (forall t, In t (map (fun e => rt_task (snd e)) (w_tasks w)) -> ~ In (t_addr t) (w_cancelled w)) ->
+  tkeys w1 /\ nodeadw w1 /\ keys_ok w1
+  /\ (forall t, In t (tasks_of w1) -> ~ In (t_addr t) (w_cancelled w)) /\ w_ready w1 = w_ready w.
+Proof.
+  induction rdel as [|t rest IH]; intros w lab o w1 lab1 H KO TK ND TD TT; simpl in H.
+  - inv H. split; auto. split; auto. split; auto. split; auto. intros t IN. unfold tasks_of in IN. simpl in IN. rewrite app_nil_r in IN. auto.
+  - set (wa := set_tasks (put_t (t_addr t) (fresh_rt t) (w_tasks w)) w) in *.
+    assert (KA : keys_ok wa) by (apply keys_ok_put; auto).
+    assert (TKA : tkeys wa) by (apply NoDup_keys_put_t; auto).
+    assert (LA : lookup_t (t_addr t) (w_tasks wa) = Some (fresh_rt t)) by (simpl; apply lt_put_same).
+    assert (TTA : forall x, In x (map (fun e => rt_task (snd e)) (w_tasks wa)) -> ~ In (t_addr x) (w_cancelled w)).
+    { intros x IN. apply in_map_iff in IN. destruct IN as ([k v] & E & IN). simpl in IN. apply In_put_inv in IN. destruct IN as [IN|IN].
+      inv IN. simpl. apply TD. left; auto. apply TT. apply in_map_iff. exists (k, v); auto. }
+    destruct (runnable wa (t_addr t)) eqn:R.
+    + inv H. apply runnable_some in R. destruct R as [R1 R2]. rewrite LA in R1. inv R1. simpl.
+      split; auto. split; [|split; auto].
+      * intros a rt IN. simpl in IN. apply In_put_inv in IN. rewrite (dead_on_env wa) by auto. destruct IN as [IN|IN]. inv IN. apply R2; auto.
+        rewrite (dead_on_env w wa) by auto. eapply ND; eauto.
+      * split; auto. intros x IN. unfold tasks_of in IN. simpl in IN. apply in_app_or in IN. destruct IN as [IN|IN]. apply TTA; auto.
+        apply TD. right. apply in_rev; auto.
+    + assert (FG : w_tasks (forget true wa (t_addr t)) = remove_t (t_addr t) (w_tasks wa)).
+      { apply (forget_dead wa (t_addr t) (fresh_rt t)); auto. simpl. apply TD. left; auto.
+        eapply runnable_none_held; eauto. }
+      destruct (forget_env true wa (t_addr t)) as (E1 & E2 & E3 & E4). destruct (forget_fields true wa (t_addr t)) as (F1 & F2 & F3).
+      eapply IH in H; eauto.
+      * destruct H as (A & B & C & D & E). split; auto. split; auto. split; auto. split. rewrite E2 in D. auto. rewrite E, F1. auto.
+      * apply keys_ok_forget; auto.
+      * unfold tkeys. rewrite FG. apply NoDup_keys_remove_t; auto.
+      * intros a rt IN. rewrite FG in IN. apply (In_remove addr_eqb addr_eqb_eq) in IN. destruct IN as [IN NE].
+        simpl in IN. apply In_put_inv in IN. destruct IN as [IN|IN]. inv IN. congruence.
+        rewrite (dead_on_env w) by (rewrite E2; auto). eapply ND; eauto.
+      * intros x IN. rewrite E2. simpl. apply TD. right; auto.
+      * intros x IN. rewrite E2. simpl. apply TTA. apply in_map_iff in IN. destruct IN as (e & E & IN). rewrite FG in IN.
+        destruct e as [k v]. apply (In_remove addr_eqb addr_eqb_eq) in IN. apply in_map_iff. exists (k, v). tauto.
+Qed.
+
+Lemma sel_ready_none : forall ready w lab w1 r lab1, sel_ready true w ready lab = (None, w1, r, lab1) -> r = [].
+Proof. induction ready as [|a rd IH]; intros w lab w1 r lab1 H; simpl in H. inv H; auto.
+  destruct (runnable w a). discriminate. eapply IH; eauto. Qed.
+
+Lemma select_good w0 o w out lab : select true w0 = (o, w, out, lab) -> keys_ok w0 -> wgood w0 -> wgood w /\ keys_ok w.
+Proof.
+  unfold select. intros H KO (TK & TE & RD).
+  destruct (sel_ready true w0 (w_ready w0) []) as [[[o1 w'] r] lab1] eqn:S.
+  pose proof (sel_ready_env _ _ _ _ _ _ _ _ S) as ((E1 & E2 & E3 & E4) & E5 & E6 & E7).
+  pose proof S as S'. apply sel_ready_good in S; auto. destruct S as (A & B & C & D).
+  destruct o1.
+  - inv H. split; auto. split; [|split]; auto.
+  - apply sel_ready_none in S'. subst r.
+    destruct (sel_delayed true (set_ready [] w') (rev (w_delayed w')) lab1) as [[o2 w2] lab2] eqn:DL.
+    pose proof (sel_delayed_env _ _ _ _ _ _ _ DL) as (G1 & G2 & G3 & G4). simpl in *.
+    apply sel_delayed_good in DL; simpl; auto.
+    + destruct DL as (P1 & P2 & P3 & P4 & P5). simpl in P5.
+      assert (W2 : wgood w2).
+      { split; auto. split. intros t IN. rewrite G2. apply P4; auto.
+        intros a rt IN DD. rewrite (P2 _ _ IN) in DD. discriminate. }
+      destruct W2 as (X1 & X2 & X3). destruct o2; inv H; (split; [split; [|split]|]); auto.
+    + intros a rt IN. destruct (dead_on w' (rt_task rt)) eqn:DD; auto. exfalso. eapply C; eauto.
+    + intros t IN. apply B. apply In_tasks_of. right. apply in_rev; auto.
+    + intros t IN. apply B. unfold tasks_of. apply in_or_app; auto.
+Qed.
+
+(* what a step does to _tasks / _ready_task_ids / _delayed_tasks after the selection phase *)
+Lemma wstep_shape f8 P w0 w' out lab o w out0 lab0 : wstep fx f8 P w0 = Some (w', out, lab) ->
+  select f8 w0 = (o, w, out0, lab0) ->
+  (o = None /\ w' = w) \/
+  (exists rt0 rt', o = Some rt0 /\ rt_task rt' = rt_task rt0
+     /\ (w_tasks w' = put_t (t_addr (rt_task rt0)) rt' (w_tasks w) \/ w_tasks w' = remove_t (t_addr (rt_task rt0)) (w_tasks w))
+     /\ w_delayed w' = w_delayed w /\ incl (w_ready w) (w_ready w')).
+Proof.
+  unfold wstep. intros H S. dmH H; [discriminate|]. rewrite S in H.
+  destruct o as [rt0|]; [|inv H; auto]. right. exists rt0.
+  destruct (desired_result (w_id w) rt0 (w_boxes w)) as [[[boxes1 rt1] l1]|] eqn:DR.
+  2:{ match type of H with context[raise_path ?a ?b ?c ?d ?e] => destruct (raise_path a b c d e) as [[w1 o1] lb1] eqn:RP end.
+      inv H. apply raise_path_spec in RP. destruct RP as (T1 & T2 & T3 & _). exists rt0. repeat split; auto. rewrite T3. apply incl_refl. }
+  apply desired_result_spec in DR. destruct DR as (DT & _ & _).
+  destruct (nth_error P (t_prog (rt_task (reset_await rt1)))) as [prog|] eqn:NP.
+  2:{ match type of H with context[raise_path ?a ?b ?c ?d ?e] => destruct (raise_path a b c d e) as [[w1 o1] lb1] eqn:RP end.
+      inv H. apply raise_path_spec in RP. destruct RP as (T1 & T2 & T3 & _). simpl in *. rewrite DT in T1.
+      eexists. split; eauto. split; [|split; [left; exact T1|split; auto]]. simpl; auto. rewrite T3. apply incl_refl. }
+  match type of H with context[run_instrs ?a ?b ?c] => destruct (run_instrs a b c) as [oc s] eqn:RI end.
+  apply run_instrs_labels in RI. simpl in RI. destruct RI as (RT & _). rewrite DT in RT.
+  destruct oc as [mb nx| |k].
+  - destruct (lookup_b mb (c_boxes s)) eqn:L.
+    + inv H. eexists. split; eauto. split; [|split; [left|split]].
+      2:{ dmG; simpl; reflexivity. } simpl; auto. dmG; simpl; auto.
+      dmG; simpl. intros x IN. apply in_or_app; auto. apply incl_refl.
+    + match type of H with context[raise_path ?a ?b ?c ?d ?e] => destruct (raise_path a b c d e) as [[w1 o1] lb1] eqn:RP end.
+      inv H. apply raise_path_spec in RP. destruct RP as (T1 & T2 & T3 & _). simpl in *. rewrite RT in T1.
+      eexists. split; eauto. split; [|split; [left; exact T1|split; auto]]. auto. rewrite T3. apply incl_refl.
+  - match type of H with context[match ?x with Some _ => _ | None => None end] => destruct x as [[[w2 out2] lab2]|] eqn:SH end; [|discriminate].
+    match type of H with context[completion ?a ?b ?c] => destruct (completion a b c) as [s2|] eqn:CL end; [|discriminate].
+    inv H.
+    assert (W2 : w_tasks w2 = w_tasks w /\ w_delayed w2 = w_delayed w /\ incl (w_ready w) (w_ready w2)).
+    { destruct (t_addr (rt_task rt0)) as [[dst x1] x2]. destruct (dst =? w_id w).
+      - match type of SH with context[handle_result ?a ?b ?c] => destruct (handle_result a b c) as [[w2' l2]|] eqn:HR end; [|discriminate].
+        inv SH. pose proof (handle_result_fields _ _ _ _ _ HR) as (_ & _ & _ & HT & HD & _). simpl in *. split; auto. split; auto.
+        clear - HR. unfold handle_result in HR. repeat dmH HR; inv HR; simpl; try apply incl_refl. intros y IN. apply in_or_app; auto.
+      - inv SH. simpl. split; auto. split; auto. apply incl_refl. }
+    destruct W2 as (W2a & W2b & W2c). exists rt0. split; auto. split; auto. split. right. simpl. rewrite W2a. auto. simpl. auto.
+  - match type of H with context[raise_path ?a ?b ?c ?d ?e] => destruct (raise_path a b c d e) as [[w1 o1] lb1] eqn:RP end.
+    inv H. apply raise_path_spec in RP. destruct RP as (T1 & T2 & T3 & _). simpl in *. rewrite RT in T1.
+    eexists. split; eauto. split; [|split; [left; exact T1|split; auto]]. auto. rewrite T3. apply incl_refl.
+Qed.
+
+Lemma wstep_wgood P w0 w' out lab : wstep fx true P w0 = Some (w', out, lab) -> keys_ok w0 -> wgood w0 -> wgood w'.
+Proof.
+  intros H KO G. destruct (select true w0) as [[[o w] out0] lab0] eqn:S.
+  destruct (select_good _ _ _ _ _ S KO G) as ((TK & TE & RD) & KW).
+  pose proof (select_spec _ _ _ _ _ _ S KO) as (_ & _ & SP).
+  pose proof (select_env _ _ _ _ _ _ S) as (_ & SC & _).
+  pose proof (wstep_fields _ _ _ _ _ _ _ H) as (_ & _ & FC).
+  destruct (wstep_shape _ _ _ _ _ _ _ _ _ _ H S) as [[-> ->]|(rt0 & rt' & -> & RT & TS & DS & RS)].
+  - split; auto.
+  - destruct (SP rt0 eq_refl) as (DD & LW & _). set (a := t_addr (rt_task rt0)) in *.
+    assert (CW : w_cancelled w' = w_cancelled w) by congruence.
+    assert (SUB : forall t, In t (tasks_of w') -> In t (tasks_of w)).
+    { intros t IN. apply In_tasks_of in IN. apply In_tasks_of. rewrite DS in IN. destruct IN as [(x & rt & IN & E)|IN]; auto. left.
+      destruct TS as [TS|TS]; rewrite TS in IN.
+      - apply In_put_inv in IN. destruct IN as [IN|IN]. inv IN. exists a, rt0. split; auto. apply lt_In; auto. eauto.
+      - apply (In_remove addr_eqb addr_eqb_eq) in IN. exists x, rt. tauto. }
+    split; [|split].
+    + unfold tkeys. destruct TS as [TS|TS]; rewrite TS. apply NoDup_keys_put_t; auto. apply NoDup_keys_remove_t; auto.
+    + eapply texact_sub; eauto.
+    + intros x rt IN D. apply RS. rewrite (dead_on_env w w') in D by auto.
+      destruct TS as [TS|TS]; rewrite TS in IN.
+      * apply In_put_inv in IN. destruct IN as [IN|IN]. inv IN. rewrite RT in D.
+        rewrite (dead_on_env w0 w) in D by auto. congruence. eapply RD; eauto.
+      * apply (In_remove addr_eqb addr_eqb_eq) in IN. eapply RD; eauto. tauto.
+Qed.
+
+(* delivery of tasks none of which has its own address cancelled at this worker *)
+Definition self_dead (ws : wstate) (m : msg) : bool :=
+  match m with
+  | MSubmit t => mem_addr (t_addr t) (w_cancelled ws)
+  | MBatch ts => existsb (fun t => mem_addr (t_addr t) (w_cancelled ws)) ts
+  | _ => false
+  end.
+
+Lemma wrecv_wgood m ws ws' l : wrecv m ws = Some (ws', l) -> keys_ok ws -> self_dead ws m = false -> wgood ws -> wgood ws'.
+Proof.
+  intros H KO SD (TK & TE & RD). destruct m; simpl in H; try discriminate.
+  - inv H. unfold recv_submit, add_task. simpl in SD. split; [|split].
+    + unfold tkeys. simpl. apply NoDup_keys_put_t; auto.
+    + intros x IN. simpl. apply In_tasks_of in IN. simpl in IN. destruct IN as [(a & rt & IN & E)|IN].
+      * apply In_put_inv in IN. destruct IN as [IN|IN]. inv IN. simpl. intro X. apply mem_addr_In in X. congruence.
+        apply TE. apply In_tasks_of. left; eauto.
+      * apply TE. apply In_tasks_of. auto.
+    + intros a rt IN D. simpl in *. apply in_or_app. apply In_put_inv in IN. destruct IN as [IN|IN]. inv IN. right; left; auto.
+      left. eapply RD; eauto.
+  - unfold recv_batch in H. destruct (rev ts) as [|lst rr] eqn:RV; [discriminate|]. inv H. simpl in SD.
+    assert (TS : forall x, In x (lst :: rr) -> ~ In (t_addr x) (w_cancelled ws)).
+    { intros x IX X. assert (IT : In x ts) by (apply in_rev; rewrite RV; auto).
+      assert (existsb (fun t => mem_addr (t_addr t) (w_cancelled ws)) ts = true) by (apply existsb_exists; exists x; split; auto; apply mem_addr_In; auto).
+      congruence. }
+    split; [|split].
+    + unfold tkeys. simpl. apply NoDup_keys_put_t; auto.
+    + intros x IN. simpl. apply In_tasks_of in IN. simpl in IN. destruct IN as [(a & rt & IN & E)|IN].
+      * apply In_put_inv in IN. destruct IN as [IN|IN]. inv IN. simpl. apply TS. left; auto.
+        apply TE. apply In_tasks_of. left; eauto.
+      * apply in_app_or in IN. destruct IN as [IN|IN]. apply TE. apply In_tasks_of. auto. apply TS. right. apply in_rev in IN. auto.
+    + intros a rt IN D. simpl in *. apply in_or_app. apply In_put_inv in IN. destruct IN as [IN|IN]. inv IN. right; left; auto.
+      left. eapply RD; eauto.
+  - pose proof (handle_result_fields _ _ _ _ _ H) as (_ & _ & C & T & DL & _).
+    assert (RI : incl (w_ready ws) (w_ready ws')).
+    { clear - H. unfold handle_result in H. destruct ra as [[x y] z]. repeat dmH H; inv H; simpl; try apply incl_refl. intros q IN. apply in_or_app; auto. }
+    split; [|split].
+    + unfold tkeys. rewrite T. auto.
+    + intros x IN. rewrite C. apply TE. unfold tasks_of in *. rewrite T, DL in IN. auto.
+    + intros x rt IN D. apply RI. rewrite T in IN. rewrite (dead_on_env ws ws') in D by auto. eapply RD; eauto.
+  - pose proof (handle_cancel_fields _ _ _ _ H) as (_ & _ & C & RY & _).
+    unfold handle_cancel in H.
+    destruct (cancel_tasks (w_id ws) a (w_tasks ws) (w_boxes ws)) as [[[ts' b'] l']|] eqn:CT; [|discriminate].
+    assert (SUBT : forall x rt, In (x, rt) (w_tasks ws') -> In (x, rt) (w_tasks ws) /\ desc a (rt_task rt) = false).
+    { inv H. simpl. intros x rt IN. eapply cancel_tasks_sub; eauto. }
+    assert (SUBD : forall t, In t (w_delayed ws') -> In t (w_delayed ws) /\ desc a t = false).
+    { inv H. simpl. intros t IN. apply filter_In in IN. destruct IN as [I1 I2]. split; auto. destruct (desc a t); auto. }
+    assert (NOTC : forall t, desc a t = false -> t_addr t <> a).
+    { intros t D E. unfold desc in D. rewrite E, addr_eqb_refl in D. discriminate. }
+    split; [|split].
+    + unfold tkeys. inv H. simpl. clear - CT TK. unfold tkeys in TK. revert CT TK. generalize (w_boxes ws). generalize (w_tasks ws).
+      intros ts. revert ts' b' l'. induction ts as [|[k rt] r IH]; intros ts' b' l' b CT TK; simpl in CT. inv CT; constructor.
+      inv TK. destruct (desc a (rt_task rt)).
+      * destruct (pop_boxes (rt_owned rt) b); [|discriminate]. destruct (cancel_tasks (w_id ws) a r l) as [[[? ?] ?]|] eqn:C2; [|discriminate].
+        inv CT. eapply IH; eauto.
+      * destruct (cancel_tasks (w_id ws) a r b) as [[[? ?] ?]|] eqn:C2; [|discriminate]. inv CT. simpl. constructor; eauto.
+        intro X. apply H1. apply in_map_iff in X. destruct X as ([k2 v2] & E & IN). simpl in E. subst.
+        eapply cancel_tasks_sub in IN; eauto. apply in_map_iff. exists (k, v2). tauto.
+    + intros t IN X. apply In_tasks_of in IN. apply C in X.
+      assert (Y : In t (tasks_of ws) /\ desc a t = false).
+      { destruct IN as [(x & rt & IN & E)|IN]. destruct (SUBT _ _ IN) as [I1 I2]. subst. split; auto. apply In_tasks_of. left; eauto.
+        destruct (SUBD _ IN). split; auto. apply In_tasks_of. auto. }
+      destruct Y as [Y1 Y2]. destruct X as [X|X]. eapply NOTC; eauto. eapply TE; eauto.
+    + intros x rt IN D. rewrite RY. destruct (SUBT _ _ IN) as [I1 I2]. eapply RD; eauto.
+      apply dead_on_iff in D. destruct D as (c & C1 & C2). apply C in C1. destruct C1 as [->|C1]. congruence.
+      apply dead_on_iff. eauto.
+Qed.
+
+Definition self_overtaken (s : sys) (e : event) : bool :=
+  match e with
+  | EDown w =>
+      match nth_error (sy_down s) w, nth_error (sy_workers s) w with
+      | Some (m :: _), Some ws => self_dead ws m
+      | _, _ => false
+      end
+  | _ => false
+  end.
+
+Definition wsgood (s : sys) : Prop := forall k ws, nth_error (sy_workers s) k = Some ws -> wgood ws.
+
+Lemma wsgood_init nw : wsgood (init_sys nw).
+Proof. intros k ws H. simpl in H. apply nth_error_In in H. apply in_map_iff in H. destruct H as (x & <- & _).
+  split. constructor. split. intros t []. intros a rt []. Qed.
+
+Lemma wsgood_step P s e s' l : step fx true P s e = Some (s', l) -> sinv s -> self_overtaken s e = false -> wsgood s -> wsgood s'.
+Proof.
+  intros H [[LU LD WK] BL DR] SO G. destruct e.
+  - apply step_client in H. destruct H as (srv & o & iss & H1 & -> & _). exact G.
+  - apply step_up in H. destruct H as (m & q & srv & o & lab & H1 & H2 & -> & _). exact G.
+  - apply step_down in H. destruct H as (m & q & ws0 & ws1 & H1 & H2 & H3 & ->). intros k ws W. simpl in W.
+    apply nth_error_set_nth_inv in W. destruct W as [[-> ->]|[N1 N2]]; [|eapply G; eauto].
+    unfold self_overtaken in SO. rewrite H1, H2 in SO. destruct (WK _ _ H2) as [K1 _]. eapply wrecv_wgood; eauto.
+  - apply step_step in H. destruct H as (ws0 & q & ws1 & out & H1 & H2 & H3 & ->). intros k ws W. simpl in W.
+    apply nth_error_set_nth_inv in W. destruct W as [[-> ->]|[N1 N2]]; [|eapply G; eauto].
+    destruct (WK _ _ H1) as [K1 _]. eapply wstep_wgood; eauto.
+Qed.
+End Full.
+
+
+Section Final.
+Variable fx : bool.
+
+Lemma ord_no_self_overtake s e : ord s -> self_overtaken s e = false.
+Proof.
+  intros [U0 O1 SU O2 RT]. destruct e; simpl; auto.
+  destruct (nth_error (sy_down s) w) as [[|m q]|] eqn:D; auto.
+  destruct (nth_error (sy_workers s) w) as [ws|] eqn:W; auto.
+  destruct (self_dead ws m) eqn:SD; auto. exfalso. destruct m; simpl in SD; try discriminate.
+  - apply mem_addr_In in SD. destruct (O2 (t_addr t) _ _ _ D W) as [_ B]. eapply B; eauto. left; auto. simpl; auto.
+  - apply existsb_exists in SD. destruct SD as (t & T1 & T2). apply mem_addr_In in T2.
+    destruct (O2 (t_addr t) _ _ _ D W) as [_ B]. eapply B; eauto. left; auto. simpl. eauto.
+Qed.
+
+Definition jinv (s : sys) : Prop := good s /\ cprop s /\ srv_inv (sy_server s) /\ ord s /\ wsgood s.
+
+Lemma jinv_init nw : jinv (init_sys nw).
+Proof. split. apply good_init. split. apply cprop_init. split. apply srv_inv_init. split. apply ord_init. apply wsgood_init. Qed.
+
+Lemma jinv_step P s e s' l : step fx true P s e = Some (s', l) -> jinv s -> jinv s'.
+Proof. intros H ([SI CS] & CP & SV & OD & WG). split; [split|split; [|split; [|split]]].
+  eapply sinv_step; eauto. eapply csound_step; eauto. eapply cprop_step; eauto.
+  eapply step_server; eauto. eapply ord_step; eauto. eapply wsgood_step; eauto. eapply ord_no_self_overtake; eauto. Qed.
+
+Lemma jinv_run P evs : forall s s' l, jinv s -> run fx true P s evs = Some (s', l) -> jinv s'.
+Proof. intros s s' l HI H. eapply (run_inv fx true P jinv (fun _ => True)); eauto.
+  intros. split. eapply jinv_step; eauto. apply Forall_forall; auto. Qed.
+
+(* C12_quiescent_clean, for ALL schedules (code since /repo 5dfab15) *)
+Theorem quiescent_clean P nw evs s l :
+  run fx true P (init_sys nw) evs = Some (s, l) -> quiescent s = true -> clean s = true.
+Proof.
+  intros R Q. assert (J : jinv s) by (eapply jinv_run; eauto; apply jinv_init).
+  destruct J as ([SI CS] & CP & SV & OD & WG).
+  unfold quiescent in Q. apply andb_true_iff in Q. destruct Q as [Q Q3]. apply andb_true_iff in Q. destruct Q as [Q1 Q2].
+  rewrite forallb_forall in Q1, Q2, Q3.
+  assert (ALL : forall c k ws, In c (sy_issued s) -> nth_error (sy_workers s) k = Some ws -> In c (w_cancelled ws)).
+  { intros c k ws IC W. destruct (CP _ _ _ IC W) as [X|[(q & A1 & A2)|(j & q & A1 & A2)]]; auto.
+    - apply nth_error_In in A1. apply Q2 in A1. destruct q; [destruct A2|discriminate].
+    - apply nth_error_In in A1. apply Q1 in A1. destruct q; [destruct A2|discriminate]. }
+  unfold clean. apply forallb_forall. intros ws IW. pose proof (Q3 _ IW) as QW. apply In_nth_error in IW. destruct IW as [k W].
+  apply negb_true_iff. unfold holds_dead. destruct SI as [[LU LD WK] BL DR]. destruct (WK _ _ W) as [K1 K2].
+  destruct (WG _ _ W) as (TK & TE & RD).
+  destruct (w_ready ws) eqn:RY; [|discriminate]. destruct (w_delayed ws) eqn:DL; [|discriminate].
+  apply orb_false_iff. split; [apply orb_false_iff; split|].
+  - destruct (existsb (fun e => dead (sy_issued s) (rt_task (snd e))) (w_tasks ws)) eqn:E; auto.
+    apply existsb_exists in E. destruct E as ([a rt] & E1 & E2). simpl in E2. exfalso.
+    apply dead_iff in E2. destruct E2 as (c & C1 & C2).
+    assert (D : dead_on ws (rt_task rt) = true) by (apply dead_on_iff; exists c; split; eauto).
+    apply (RD _ _ E1) in D. destruct D.
+  - reflexivity.
+  - destruct (existsb (fun e => mem_addr (w_id ws, fst e, 0) (sy_issued s)) (w_boxes ws)) eqn:E; auto.
+    apply existsb_exists in E. destruct E as ([mb box] & E1 & E2). simpl in E2. apply mem_addr_In in E2. rewrite K2 in E2.
+    destruct (DR _ _ _ _ E2 W) as [X _]. apply In_lookup_b in E1. contradiction.
+Qed.
+Lemma no_self_overtake_reach P nw evs s l e : run fx true P (init_sys nw) evs = Some (s, l) -> self_overtaken s e = false.
+Proof. intros R. apply ord_no_self_overtake.
+  assert (J : jinv s) by (eapply jinv_run; eauto; apply jinv_init). destruct J as (_ & _ & _ & OD & _). exact OD. Qed.
+End Final.
